@@ -22,9 +22,10 @@ import (
 )
 
 type workItem struct {
-	t     *tree
-	brute bool
-	phase string
+	t       *tree
+	brute   bool
+	phase   string
+	classic bool // also run on the (100-1000x slower) corpus-less handler worlds
 }
 
 // workList enumerates the bounded space of trees; the order is fixed (sharding uses the index).
@@ -36,10 +37,10 @@ func workList() (items []workItem, bound string) {
 	}
 	fl := leafTrees(full)
 	for _, t := range fl {
-		items = append(items, workItem{t, true, "d<=2"})
+		items = append(items, workItem{t, true, "d<=2", true})
 	}
 	for _, t := range level2(fl) {
-		items = append(items, workItem{t, true, "d<=2"})
+		items = append(items, workItem{t, true, "d<=2", true})
 	}
 	nA := len(items)
 	var pl []*leaf
@@ -52,22 +53,28 @@ func workList() (items []workItem, bound string) {
 	if vk.Thorough() {
 		outer = fl
 	}
+	isPlanner := map[*leaf]bool{}
+	for _, l := range pl {
+		isPlanner[l] = true
+	}
+	th := vk.Thorough()
 	for _, a := range d2 {
-		items = append(items, workItem{&tree{op: "not", a: a}, false, "d3"})
+		items = append(items, workItem{&tree{op: "not", a: a}, th, "d3", th})
 	}
 	for _, op := range binOps {
 		for _, l := range outer {
 			for _, d := range d2 {
-				items = append(items, workItem{&tree{op: op, a: l, b: d}, false, "d3"})
-				items = append(items, workItem{&tree{op: op, a: d, b: l}, false, "d3"})
+				// thorough: brute force too, and the classic worlds for the planner-leaf part
+				items = append(items, workItem{&tree{op: op, a: l, b: d}, th, "d3", th && isPlanner[l.leaf]})
+				items = append(items, workItem{&tree{op: op, a: d, b: l}, th, "d3", th && isPlanner[l.leaf]})
 			}
 		}
 	}
-	if vk.Thorough() {
+	if th {
 		for _, op := range binOps {
 			for _, a := range d2 {
 				for _, b := range d2 {
-					items = append(items, workItem{&tree{op: op, a: a, b: b}, false, "d3"})
+					items = append(items, workItem{&tree{op: op, a: a, b: b}, false, "d3", false})
 				}
 			}
 		}
@@ -96,7 +103,7 @@ func confirm(w *W, it workItem, first []finding) (confirmed []finding, flaky []s
 	for i := 0; i < 5; i++ {
 		ck := newChecker(w, &vk.Scenario{})
 		seen := map[string]bool{}
-		for _, f := range ck.checkTree(it.t, it.brute) {
+		for _, f := range ck.checkTree(it.t, it.brute && w.mode != "classic") {
 			if !seen[f.sig] {
 				seen[f.sig] = true
 				count[f.sig]++
@@ -115,8 +122,23 @@ func confirm(w *W, it workItem, first []finding) (confirmed []finding, flaky []s
 	return
 }
 
+// sigSeen counts confirmed findings per signature in this process. vk keeps
+// at most 3 violations per signature, so once a signature has been confirmed
+// (5 re-runs each) three times, further occurrences are only tallied.
+var sigSeen = map[string]int{}
+
 func report(res *vk.Result, sc *vk.Scenario, w *W, it workItem, fs []finding) {
 	if len(fs) == 0 {
+		return
+	}
+	fresh := false
+	for _, f := range fs {
+		sc.Outcome("finding|" + f.sig)
+		if sigSeen[f.sig] < 3 {
+			fresh = true
+		}
+	}
+	if !fresh {
 		return
 	}
 	conf, flaky := confirm(w, it, fs)
@@ -128,7 +150,10 @@ func report(res *vk.Result, sc *vk.Scenario, w *W, it workItem, fs []finding) {
 			res.EngineError("%s: %s", f.sig, f.what)
 			continue
 		}
-		res.Violate(sc, f.sig, f.what, f.replay)
+		if sigSeen[f.sig] < 3 {
+			res.Violate(sc, f.sig, f.what, f.replay)
+		}
+		sigSeen[f.sig]++
 	}
 }
 
@@ -143,6 +168,11 @@ func TestCheck(t *testing.T) {
 	}
 	if rp, ok := vk.ReplayFile(); ok {
 		replay(res, rp)
+		res.Write()
+		return
+	}
+	if os.Getenv("VERIF_GROUP") == "mapsort" {
+		runMapSort(res)
 		res.Write()
 		return
 	}
@@ -182,11 +212,16 @@ func TestCheck(t *testing.T) {
 			continue
 		}
 		for _, x := range worlds {
-			if x.w.mode == "classic" && it.t.corpusOnly() {
-				x.sc.Outcome("skipped-corpus-only|" + it.t.shape())
-				continue
+			if x.w.mode == "classic" {
+				if !it.classic {
+					continue
+				}
+				if it.t.corpusOnly() {
+					x.sc.Outcome("skipped-corpus-only|" + it.t.shape())
+					continue
+				}
 			}
-			fs := x.ck.checkTree(it.t, it.brute)
+			fs := x.ck.checkTree(it.t, it.brute && x.w.mode != "classic")
 			report(res, x.sc, x.w, it, fs)
 			if len(x.ck.genMemo) > 200000 {
 				x.ck.genMemo = map[string]genRes{}
@@ -259,6 +294,11 @@ func replay(res *vk.Result, rp map[string]any) {
 		res.EngineError("replay: cannot parse tree %q: %v", key, err)
 		return
 	}
+	if class == "located" {
+		lim, _ := r["limit"].(float64)
+		replayMapSort(res, mode, t, int(lim), want)
+		return
+	}
 	w, err := buildWorld(class, mode)
 	if err != nil {
 		res.EngineError("replay: world %s/%s: %v", class, mode, err)
@@ -266,8 +306,8 @@ func replay(res *vk.Result, rp map[string]any) {
 	}
 	sc := res.Scenario(w.name())
 	ck := newChecker(w, sc)
-	it := workItem{t, t.depth() <= 2, "replay"}
-	fs := ck.checkTree(it.t, it.brute)
+	it := workItem{t, t.depth() <= 2 || vk.Thorough(), "replay", true}
+	fs := ck.checkTree(it.t, it.brute && w.mode != "classic")
 	conf, _ := confirm(w, it, fs)
 	for _, f := range conf {
 		if want == "" || f.sig == want {
